@@ -29,6 +29,9 @@ Inductive c15_case :=
 | CRoute (r : option route) (obs : Z)
 | CMeta (m : swap_meta) (obs : Z)
 | CHead (name : string) (req : fval) (obs : Z)
+| CLiq (base : bool)      (* types.LiquidityBase (true) / LiquidityQuote (false), called directly *)
+       (amount sa sb : Z)  (* amount, the two sqrt prices (raw decimals) *)
+       (obs : Z) (v : Z)   (* 0 = returned the raw decimal v, 3 = panic "division by zero", 4 = panic "Int overflow", 2 = other panic *)
 | CFee (rate : option Z)  (* LegacyNewDecFromStr of the interface fee rate set through MsgUpdateParams (persisted) *)
        (upd : Z)          (* outcome of the update *)
        (quote : Z).       (* outcome of an exact-out quote of 1000 with the interface fee, afterwards *)
@@ -138,6 +141,13 @@ Definition fee_corr (rate : option Z) (upd : Z) : bool :=
               else upd =? O_ERR
   end.
 
+Definition liq_corr (base : bool) (amount sa sb obs v : Z) : bool :=
+  match (if base then liq_base true amount sa sb else liq_quote true amount sa sb) with
+  | DOk z => (obs =? 0) && (v =? z)
+  | DDivZero => obs =? 3
+  | DOverflow => obs =? 4
+  end.
+
 Definition c15_check (c : c15_case) : list Z :=
   match c with
   | CMemo doc pb dec val data_ok dm rcv =>
@@ -151,6 +161,10 @@ Definition c15_check (c : c15_case) : list Z :=
   | CHead name req obs =>
       flag 0 (head_corr name req obs) ++ flag 1 (negb (obs =? O_PANIC)) ++
       (if val_big req then [101] else []) ++ (if trig_tick name req then [102] else [])
+  | CLiq base amount sa sb obs v =>
+      (* the pure function is not an entry point: its overflow on out-of-range operands is not a
+         finding here; a division by zero is (the zero-width operands are reachable from a query) *)
+      flag 0 (liq_corr base amount sa sb obs v) ++ flag 1 (negb (obs =? 3))
   | CFee rate upd quote =>
       flag 0 (fee_corr rate upd) ++ flag 1 (negb ((upd =? O_PANIC) || (quote =? O_PANIC)))
   end.
